@@ -2,7 +2,9 @@
 # runs every property's check at the given tier (default quick), one after the other
 tier=${1:-quick}
 cd "$(dirname "$0")/.."
-for p in C01 C02 C03 C04 C05 C06 C07 C08 C09 C10 C11 C12 C13 C14 C15 C16 C17; do
+shift 2>/dev/null
+props=${*:-C01 C02 C03 C04 C05 C06 C07 C08 C09 C10 C11 C12 C13 C14 C15 C16 C17}
+for p in $props; do
   s=$(date +%s)
   out=$(python3 tools/check.py $p --tier $tier 2>&1); rc=$?
   e=$(date +%s)
